@@ -9,6 +9,7 @@ import (
 	"verif/tools/internal/absint"
 	"verif/tools/internal/core"
 	"verif/tools/internal/ssax"
+	"verif/tools/internal/tables"
 )
 
 // listElem recognises an element read of a local list: *(&x[idx]) with x the
@@ -131,4 +132,64 @@ func triedAllRule(env *e3Env, xr *xssRoots, r *core.Result, rule string, fn, cal
 	xr.run("list:"+fn.Name(), cfg, fn, func(e *absint.Engine, st *absint.State, fr *absint.Frame) {
 		env.genericSetup(e, st, fr, fn)
 	})
+}
+
+// traceConsts lets the trace enumeration read entries of package-level tables whose
+// initialisers are closed (E2 closed evaluator); cached per program.
+func traceConsts(p *core.Program) ssax.TraceConsts {
+	cache := map[string]tables.Val{}
+	failed := map[string]bool{}
+	return func(g *ssa.Global, path []int) (interface{}, bool) {
+		name := g.Name()
+		v, ok := cache[name]
+		if !ok {
+			if failed[name] {
+				return nil, false
+			}
+			val, err := tables.ClosedValue(p, name)
+			if err != nil {
+				failed[name] = true
+				return nil, false
+			}
+			cache[name] = val
+			v = val
+		}
+		for _, i := range path {
+			switch x := v.(type) {
+			case *tables.Slice:
+				if x == nil {
+					if i == -1 {
+						return int64(0), true
+					}
+					return nil, false
+				}
+				if i == -1 {
+					return int64(len(x.Elems)), true
+				}
+				if i < 0 || i >= len(x.Elems) {
+					return nil, false
+				}
+				v = x.Elems[i]
+			case *tables.Struct:
+				if x == nil || i < 0 || i >= len(x.F) {
+					return nil, false
+				}
+				v = x.F[i]
+			case nil:
+				if i == -1 {
+					return int64(0), true
+				}
+				return nil, false
+			default:
+				return nil, false
+			}
+		}
+		switch x := v.(type) {
+		case int64, string, bool:
+			return x, true
+		case *ssa.Function:
+			return ssax.Unwrap(x), true
+		}
+		return nil, false
+	}
 }
